@@ -549,7 +549,228 @@ def rule_len_agree(ctx):
     ctx.floor("get_or_alloc call sites", n, 5)
 
 
+class _Aff:
+    """Abstract value of a u32 expression over one class of indices: a constant; or index + off for every index in
+    [lo, hi] (slope exactly one, so distinct indices give distinct values); or, when a bit operation is not affine on
+    the class, just an interval `iv` (sound bounds, injectivity unknown)."""
+    def __init__(self, off, lo=None, hi=None, iv=None):
+        self.off, self.lo, self.hi, self.iv = off, lo, hi, iv
+
+    @property
+    def const(self):
+        return self.lo is None and self.iv is None
+
+    def rng(self):
+        if self.iv is not None:
+            return self.iv
+        return (self.off, self.off) if self.const else (self.lo + self.off, self.hi + self.off)
+
+
+class _NoAbs(Exception):
+    pass
+
+
+def _aff_eval(facts, fn, e, env, depth=0):
+    U32 = 2 ** 32
+    e = strip_casts(e) if e[0] == "cast" else e
+    k = e[0]
+    if k == "const" and isinstance(e[1], int):
+        return _Aff(e[1])
+    if k == "arg":
+        if e[1] in env:
+            return env[e[1]]
+        raise _NoAbs("unbound parameter")
+    if k in ("ref", "deref"):
+        return _aff_eval(facts, fn, e[1], env, depth)
+    if k in ("bin", "checked"):
+        a = _aff_eval(facts, fn, e[2], env, depth)
+        b = _aff_eval(facts, fn, e[3], env, depth)
+        op = e[1]
+        if op in ("Add", "Sub") and (a.iv is not None or b.iv is not None):
+            (al, ah), (bl, bh) = a.rng(), b.rng()
+            r = _Aff(None, iv=(al + bl, ah + bh) if op == "Add" else (al - bh, ah - bl))
+            if r.iv[0] < 0 or r.iv[1] >= U32:
+                raise _NoAbs("u32 overflow in %s (would panic)" % op)
+            return r
+        if op in ("Add", "Sub"):
+            sgn = 1 if op == "Add" else -1
+            if b.const:
+                r = _Aff(a.off + sgn * b.off, a.lo, a.hi)
+            elif a.const and op == "Add":
+                r = _Aff(b.off + a.off, b.lo, b.hi)
+            elif not a.const and not b.const and op == "Sub" and (a.lo, a.hi) == (b.lo, b.hi):
+                r = _Aff(a.off - b.off)
+            else:
+                raise _NoAbs("non-affine %s" % op)
+            lo_, hi_ = r.rng()
+            if lo_ < 0 or hi_ >= U32:
+                raise _NoAbs("u32 overflow in %s (would panic)" % op)
+            return r
+        if op == "Shl" and a.const and b.const:
+            if b.off >= 32:
+                raise _NoAbs("shift overflow")
+            return _Aff((a.off << b.off) % U32)
+        if op == "Shr" and a.const and b.const:
+            return _Aff(a.off >> b.off)
+        if op == "BitXor" and b.const and b.off > 0 and (b.off & (b.off - 1)) == 0:
+            # x ^ 2^j with bit j set in EVERY value of the class  ==  x - 2^j
+            lo_, hi_ = a.rng()
+            pj = b.off
+            if (lo_ & ~(pj - 1)) == (hi_ & ~(pj - 1)) and (lo_ & pj):
+                return _Aff(a.off - pj, a.lo, a.hi)
+            if (lo_ & ~(pj - 1)) == (hi_ & ~(pj - 1)) and not (lo_ & pj):
+                return _Aff(a.off + pj, a.lo, a.hi)     # bit clear in every value: x ^ 2^j == x + 2^j
+            if hi_ < pj:
+                return _Aff(a.off + pj, a.lo, a.hi)
+            # the bit varies over the class: not affine; bits above it are untouched
+            hi_mask = ~(2 * pj - 1)
+            if (lo_ & hi_mask) == (hi_ & hi_mask):
+                base = lo_ & hi_mask
+                return _Aff(None, iv=(base, base + 2 * pj - 1))
+            return _Aff(None, iv=(max(0, lo_ - pj), hi_ + pj))
+        if op == "BitAnd" and b.const and ((b.off + 1) & b.off) == 0:
+            # x & (2^j - 1): keeps the low j bits; affine when the class lies inside one aligned block of size 2^j
+            lo_, hi_ = a.rng()
+            blk = b.off + 1
+            if (lo_ // blk) == (hi_ // blk):
+                return _Aff(a.off - (lo_ // blk) * blk, a.lo, a.hi)
+            return _Aff(None, iv=(0, blk - 1))
+        if op == "BitOr" and b.const and b.off > 0 and (b.off & (b.off - 1)) == 0:
+            lo_, hi_ = a.rng()
+            pj = b.off
+            if (lo_ & ~(pj - 1)) == (hi_ & ~(pj - 1)):
+                return _Aff(a.off + (0 if (lo_ & pj) else pj), a.lo, a.hi)
+            return _Aff(None, iv=(lo_, hi_ + pj))
+        if op == "BitXor" and a.const and b.const:
+            return _Aff(a.off ^ b.off)
+        if op in ("Mul",) and a.const and b.const:
+            return _Aff(a.off * b.off)
+        raise _NoAbs("operator %s" % op)
+    if k == "call":
+        name = str(e[1])
+        short = name.rsplit("::", 1)[-1]
+        if short == "checked_add" and "u32" in name:
+            a = _aff_eval(facts, fn, e[2][0], env, depth)
+            b = _aff_eval(facts, fn, e[2][1], env, depth)
+            if not b.const:
+                raise _NoAbs("checked_add of two variables")
+            r = _Aff(a.off + b.off, a.lo, a.hi)
+            if r.rng()[1] >= U32:
+                return ("none",)
+            return ("some", r)
+        if short in ("expect", "unwrap") and "Option" in name:
+            v = _aff_eval(facts, fn, e[2][0], env, depth)
+            if isinstance(v, tuple) and v[0] == "some":
+                return v[1]
+            raise _NoAbs("expect on None (panics)")
+        if short == "leading_zeros":
+            a = _aff_eval(facts, fn, e[2][0], env, depth)
+            lo_, hi_ = a.rng()
+            if lo_ <= 0 or lo_.bit_length() != hi_.bit_length():
+                raise _NoAbs("leading_zeros not constant over the class")
+            return _Aff(32 - lo_.bit_length())
+        b = facts.body("nucleo", name)
+        if b is not None and depth < 4:
+            from cfg import decision_paths
+            cf = fn_of(b)
+            ps = decision_paths(cf)
+            if len(ps) == 1 and not ps[0][0] and ps[0][1] is not None:
+                argv = [_aff_eval(facts, fn, a_, env, depth) for a_ in e[2]]
+                return _aff_eval(facts, cf, ps[0][1], {i + 1: v for i, v in enumerate(argv)}, depth + 1)
+        raise _NoAbs("call of %s" % name)
+    raise _NoAbs("expression %s" % k)
+
+
+def rule_location_bijective(ctx):
+    """Location::of is a bijection from the valid indices [0, MAX_ENTRIES] onto {(bucket, entry): bucket < BUCKETS,
+    entry < bucket_len(bucket)}: two pushes never share a slot and every slot of every bucket is addressable.
+    Abstract interpretation over the partition of the indices by the bit length of `index + SKIP` (27 classes): on each
+    class `bucket` and `bucket_len` evaluate to constants and `entry` to `index + c` (slope one), its range is exactly
+    [0, bucket_len), and bucket numbers are consecutive from 0 to BUCKETS-1.  No index is evaluated concretely."""
+    from cfg import decision_paths
+    facts = ctx.facts
+    fn = get_fn(facts, "nucleo", "boxcar::Location::of")
+    ps = decision_paths(fn)
+    if len(ps) != 1 or ps[0][0] or ps[0][1] is None or ps[0][1][0] != "agg":
+        raise Inconclusive("Location::of is not a single straight-line struct computation")
+    flds = ps[0][1][2]
+    if not {"bucket", "entry"} <= set(flds):
+        raise Inconclusive("Location has no bucket/entry fields")
+    skip = facts.const("nucleo", "boxcar::SKIP")["value"]
+    buckets = facts.const("nucleo", "boxcar::BUCKETS")["value"]
+    max_entries = facts.const("nucleo", "boxcar::MAX_ENTRIES")["value"]
+    lenf = get_fn(facts, "nucleo", "boxcar::Location::bucket_len")
+    lps = decision_paths(lenf)
+    U32 = 2 ** 32
+    classes = []
+    kbit = (skip).bit_length()          # skipped >= SKIP = 2^(kbit-1)
+    lo = 0
+    while lo <= max_entries:
+        sk_lo = lo + skip
+        sk_hi = min((1 << sk_lo.bit_length()) - 1, max_entries + skip)
+        classes.append((lo, sk_hi - skip))
+        lo = sk_hi - skip + 1
+    problems = []
+    seen_buckets = []
+    try:
+        for lo, hi in classes:
+            env = {1: _Aff(0, lo, hi)}
+            try:
+                b_ = _aff_eval(facts, fn, flds["bucket"], env)
+                e_ = _aff_eval(facts, fn, flds["entry"], env)
+                if "bucket_len" in flds:
+                    _aff_eval(facts, fn, flds["bucket_len"], env)
+            except _NoAbs as ex:
+                if "overflow" in str(ex) or "panics" in str(ex):
+                    problems.append("for indices %d..=%d the computation overflows / panics (%s)" % (lo, hi, ex))
+                    continue
+                raise
+            if not b_.const:
+                problems.append("bucket is not constant on indices %d..=%d" % (lo, hi))
+                continue
+            if e_.const:
+                problems.append("entry does not depend on the index for indices %d..=%d (slots shared)" % (lo, hi))
+                continue
+            if e_.iv is not None:
+                blen = _aff_eval(facts, lenf, lps[0][1], {1: _Aff(b_.off)})
+                if e_.iv[0] >= blen.off:
+                    problems.append("bucket %d: every entry computed for indices %d..=%d is >= %d but bucket_len is %d: write past the end of the bucket" % (b_.off, lo, hi, e_.iv[0], blen.off))
+                    seen_buckets.append(b_.off)
+                    continue
+                if e_.iv[1] - e_.iv[0] + 1 < hi - lo + 1:
+                    problems.append("bucket %d: %d indices are mapped into only %d entry values (slots shared)" % (b_.off, hi - lo + 1, e_.iv[1] - e_.iv[0] + 1))
+                    seen_buckets.append(b_.off)
+                    continue
+                raise _NoAbs("entry is not affine on indices %d..=%d (bounds %s): injectivity not decided" % (lo, hi, e_.iv))
+            blen = _aff_eval(facts, lenf, lps[0][1], {1: _Aff(b_.off)})
+            elo, ehi = e_.rng()
+            seen_buckets.append(b_.off)
+            if elo != 0 and not (seen_buckets.count(b_.off) > 1):
+                problems.append("bucket %d: first entry is %d, not 0 (slots below it are never used / previous bucket overlaps)" % (b_.off, elo))
+            if ehi >= blen.off:
+                problems.append("bucket %d: entry reaches %d but bucket_len is %d: write past the end of the bucket" % (b_.off, ehi, blen.off))
+            if "bucket_len" in flds:
+                bl2 = _aff_eval(facts, fn, flds["bucket_len"], env)
+                if not bl2.const or bl2.off != blen.off:
+                    problems.append("Location.bucket_len disagrees with Location::bucket_len(bucket) for bucket %d" % b_.off)
+            # full classes must fill their bucket exactly (the last class is cut off by MAX_ENTRIES)
+            if hi != classes[-1][1] and ehi != blen.off - 1:
+                problems.append("bucket %d: last entry is %d, bucket_len %d: %d slots are never addressed" % (b_.off, ehi, blen.off, blen.off - 1 - ehi))
+    except _NoAbs as ex:
+        raise Inconclusive("Location::of is not affine on the bit-length classes of index + SKIP: %s" % ex)
+    if seen_buckets != list(range(len(classes))):
+        problems.append("bucket numbers over the index classes are %s, expected 0..%d in order" % (seen_buckets[:8], len(classes) - 1))
+    if len(classes) != buckets:
+        problems.append("the valid indices need %d buckets, the bucket array has BUCKETS = %d" % (len(classes), buckets))
+    if problems:
+        ctx.violation("boxcar::Location::of|bijective|1", site(fn, 0), "; ".join(problems[:3]))
+    else:
+        ctx.ok(site(fn, 0), "Location::of: %d index classes ↦ buckets 0..%d, entry = index + c on each, ranges exactly [0, bucket_len): a bijection onto the slots (all %d valid indices)"
+               % (len(classes), buckets - 1, max_entries + 1))
+
+
 def rules(ctx):
+    ctx.run_rule("C08.location-bijective", rule_location_bijective)
     ctx.run_rule("C08.reserve", rule_reserve)
     ctx.run_rule("C08.lying-iter", rule_lying_iter)
     ctx.run_rule("C08.init-before-publish", rule_init_before_publish)
